@@ -1055,12 +1055,14 @@ int main(int argc, char** argv)
         s.limit = std::stoull(w[1]); s.maxb = std::stoull(w[2]); s.ow = w[3] == "1"; s.mode = w[4][0]; s.clean = w[5] == "1";
         s.freq = w[6][0]; s.iv = static_cast<uint32_t>(std::stoul(w[7])); s.hh = std::stoi(w[8]); s.mm = std::stoi(w[9]);
         s.ts = std::stoull(w[10]);
-        // w[11] = zone offset (recomputed), w[12] = sp=<spelling> (absent in older replay files: canonical)
-        if (w.size() >= 13 && w[12].compare(0, 3, "sp=") == 0)
-        {
-          int const k = std::atoi(w[12].c_str() + 3);
-          s.spell = (k >= 0 && k < N_SPELL) ? k : 0;
-        }
+        // w[11] = zone offset (recomputed; may be missing in hand-written files), then sp=<spelling> (absent in older
+        // replay files: canonical)
+        for (size_t k = 11; k < w.size(); ++k)
+          if (w[k].compare(0, 3, "sp=") == 0)
+          {
+            int const v = std::atoi(w[k].c_str() + 3);
+            s.spell = (v >= 0 && v < N_SPELL) ? v : 0;
+          }
         c->do_start(s);
       }
       else if (w[0] == "w" && w.size() >= 4)
